@@ -346,7 +346,9 @@ package jsonpath
 //@   unfold WFnode(this) ==> WFrecursiveDef(i)
 //@   loop 1 invariant buf: bufInv(container)
 //@   loop 1 invariant errs: errInv(deepestTextLen, deepestError)
-//@   loop 1 invariant stack: wf(targetNodes) && mine(targetNodes) && arr(targetNodes) != arr(container.result)
+//@   loop 1 invariant stackwf: wf(targetNodes)
+//@   loop 1 invariant stackmine: mine(targetNodes)
+//@   loop 1 invariant stacksep: arr(targetNodes) != arr(container.result)
 //@   loop 1 invariant stackext: extStack(targetNodes)
 //@   loop 2 invariant buf: bufInv(container)
 //@   loop 2 invariant errs: errInv(deepestTextLen, deepestError)
